@@ -103,6 +103,17 @@ CHECKS["C16"] = ("model_checking",
     "Two tree shapes; contexts over two keys; local runner.",
     "DESIGN.md §3 C16")
 
+CHECKS["C02"] = ("model_checking",
+    "bounded-exhaustive enumeration of result values x backends x call modifiers, each executed on the real runner/storage; differential oracle = the plain function",
+    "Every value of the result alphabet (None, bool, ints, floats incl. -0.0/NaN/inf, str, bytes, date, naive/aware datetime, Timestamp, numpy arrays of the seven dtypes empty / length 1 / with NaN, pandas Index / Series / DataFrame empty / tiny / object / NaN, in-memory and on-disk partitions, seven exception classes incl. two-argument, nested, function-local and not-to-be-memoized ones; closed under list / dict to depth 1 quick, 2 thorough) on memory, filesystem and filesystem+cache (8 B, 4 KiB, 1 MiB) backends with no modifier, ignore_result and force_local: call (body once, equal and usable value), call (no body, equal value of the same type / same exception class or memoized-exception type with the message), memento() result type equals the classification of the value read back, forget, call (body once), call; a neighbour call of the same function and a twin function with byte-identical result stay memoized; a batch [memoized, new, memoized] returns the right slots.",
+    "pandas values have <= 100 rows; equality is type-exact and NaN-aware; local runner.",
+    "DESIGN.md §3 C02")
+CHECKS["C17"] = ("model_checking",
+    "bounded-exhaustive enumeration of partition merge chains x parent provenance x staging kinds x backends on the real codec/storage; oracle = dictionary overlay",
+    "Chains of length 0..2 (quick) / 0..3 (thorough) of memento functions each returning a partition that declares the previous one as merge parent: own key sets per level from 5 subsets of {a,b,c} (values int / str / None / list / DataFrame depending on key and level), parent obtained by computing it in the nested call, by reading it back from disk after reopening, or from the memory cache, in-memory and on-disk staging in all-same and alternating patterns, on filesystem, filesystem+cache and memory backends. The object returned by the first call, the object read back through a fresh backend, and every lower level of the chain afterwards must equal the overlay (own keys win, parent-only keys remain); the second call runs no body; get(k) of a read-back partition opens at most one data object.",
+    "Key alphabet of three; merge parents are set through the _merge_parent attribute as the library's own tests do.",
+    "DESIGN.md §3 C17")
+
 PENDING = {}
 
 
